@@ -264,9 +264,17 @@ def rule_b(chk: Check, eng: Engine) -> None:
     tn = eng.cls("fandango.language.grammar.nodes.terminal", "TerminalNode")
     fz = eng.method(tn, "fuzz")
     n = 0
-    for iff in walk_local(fz.node):
-        if not (isinstance(iff, ast.If) and "BYTES" in norm(iff.test)):
-            continue
+    # the branch of fuzz() for bytes regexes - or, when that code was extracted, the body of a helper of the class / module that fuzz() calls
+    regions: list[tuple[int, list[ast.stmt]]] = [(iff.lineno, iff.body) for iff in walk_local(fz.node) if isinstance(iff, ast.If) and "BYTES" in norm(iff.test)]
+    called = {call_name(c) for c in walk_local(fz.node) if isinstance(c, ast.Call)}
+    mod = eng.ix.modules.get(fz.module)
+    helpers = [m for m in tn.methods.values() if m is not fz and m.name in called]
+    if mod is not None:
+        helpers += [g for nm, g in mod.functions.items() if nm in called and hasattr(g, "node")]
+    for h in helpers:
+        regions.append((h.line, list(h.node.body)))  # type: ignore[attr-defined]
+    for lineno_, stmts in regions:
+        iff = ast.If(test=ast.Constant(value=True), body=stmts, orelse=[], lineno=lineno_, col_offset=0)
         body = ast.Module(body=iff.body, type_ignores=[])
         dec = [c for c in ast.walk(body) if isinstance(c, ast.Call) and isinstance(c.func, ast.Attribute) and c.func.attr in ("to_string", "decode")]
         enc = [c for c in ast.walk(body) if isinstance(c, ast.Call) and isinstance(c.func, ast.Attribute) and c.func.attr in ("encode", "to_bytes")]
@@ -306,6 +314,7 @@ from ..mutants import M  # noqa: E402
 _IP = "src/fandango/language/grammar/parser/iterative_parser.py"
 _TN = "src/fandango/language/grammar/nodes/terminal.py"
 MUTANTS = [
+    M("extracted-helper-encodes-utf8", _TN, '                    # Exrex can\'t do bytes, so we decode to str and back\n                    pattern = self.symbol.value().to_string("latin-1")\n                    instance = get_one(pattern).encode("latin-1")\n', '                    instance = self._expand_bytes_pattern(get_one)\n', "R05-b", more=(('    def accept(\n        self,\n        visitor: "fandango.language.grammar.node_visitors', '    def _expand_bytes_pattern(self, get_one: Any) -> bytes:\n        # Exrex can\'t do bytes, so we decode to str and back\n        pattern = self.symbol.value().to_string("latin-1")\n        return get_one(pattern).encode("utf-8")\n\n    def accept(\n        self,\n        visitor: "fandango.language.grammar.node_visitors'),)),
     M("byte-scanner-rejects-empty-literal", _IP, "        match, match_length = state.dot.check(check_word)\n        table_idx_multiplier = 8\n\n        if not match:\n",
       "        match, match_length = state.dot.check(check_word)\n        table_idx_multiplier = 8\n        if match_length == 0:\n            return False\n\n        if not match:\n", "R05-a"),
     M("byte-scanner-advances-only-over-progress", _IP, "        else:\n            next_state = state.next()\n            next_state.is_incomplete = False\n            next_state.incomplete_idx = 0\n            tree = ParserDerivationTree(Terminal(check_word[:match_length]))\n            if state.is_incomplete:\n                next_state.children[-1] = tree\n            else:\n                next_state.append_child(tree)\n        table[k + ((match_length - state.incomplete_idx) * table_idx_multiplier)].add(\n            next_state\n        )\n",
@@ -314,6 +323,7 @@ MUTANTS = [
     M("instance-encoded-with-default-codec", _TN, "                    instance = get_one(pattern).encode(\"latin-1\")\n", "                    instance = get_one(pattern).encode()\n", "R05-b"),
 ]
 TWINS = [
+    M("twin-bytes-branch-extracted-into-a-helper", _TN, '                    # Exrex can\'t do bytes, so we decode to str and back\n                    pattern = self.symbol.value().to_string("latin-1")\n                    instance = get_one(pattern).encode("latin-1")\n', '                    instance = self._expand_bytes_pattern(get_one)\n', None, more=(('    def accept(\n        self,\n        visitor: "fandango.language.grammar.node_visitors', '    def _expand_bytes_pattern(self, get_one: Any) -> bytes:\n        # Exrex can\'t do bytes, so we decode to str and back\n        pattern = self.symbol.value().to_string("latin-1")\n        return get_one(pattern).encode("latin-1")\n\n    def accept(\n        self,\n        visitor: "fandango.language.grammar.node_visitors'),)),
     M("twin-regex-scanner-keeps-new-full-matches", _IP, "        if match and match_length <= prev_match_length:\n", "        if match and state.is_incomplete and match_length <= prev_match_length:\n", None),
     M("twin-codec-through-a-module-constant", _TN, "                    pattern = self.symbol.value().to_string(\"latin-1\")\n                    instance = get_one(pattern).encode(\"latin-1\")\n",
       "                    pattern = self.symbol.value().to_string(_BYTE_REGEX_CODEC)\n                    instance = get_one(pattern).encode(_BYTE_REGEX_CODEC)\n", None,
